@@ -46,7 +46,7 @@ fn expected13(code: u16, t: &gillham::Table) -> Option<i64> {
 
 pub fn run(a: &Args, r: &mut Report) {
     r.exhaustive = true;
-    r.rule = "exhaustive: 2^16 gray2alt arguments, 2^13 decode_id13 arguments, 2^13 AC codes x DF0/4/16/20, 2^12 ME altitude codes x TC 9..18,20..22, 2^13 identity codes x DF5/DF21/BDS6,1; a case is one (function, code) pair; all are distinct; non-trivial = every pair whose expected value is an altitude/identity rather than 'unavailable'".into();
+    r.rule = "exhaustive: 2^16 gray2alt arguments, 2^13 decode_id13 arguments, 2^13 AC codes x DF0/4/16/20, 2^12 ME altitude codes x TC 9..18,20..22, 2^13 identity codes x DF5/DF21/BDS6,1; a case is one (function, code) pair; all are distinct; non-trivial = every pair whose expected value is an altitude/identity rather than 'unavailable' The header fields in front of a 13-bit code (flight status, downlink request, utility message, vertical status, sensitivity level, reply information) take all their values as the code runs.".into();
     r.assumptions.push("altitude exactly 0 ft is accepted as either 0/Some(0) or unavailable (0 is the 13-bit API's 'unavailable' sentinel)".into());
     r.assumptions.push("AC codes with the M bit set are checked for totality only (metric altitude is reserved in Annex 10)".into());
     let t = gillham::table();
@@ -160,11 +160,15 @@ pub fn run(a: &Args, r: &mut Report) {
             continue;
         }
         let mb = [0x00u8, 0x11, 0x22, 0x33, 0x44, 0x55, 0x66];
+        // the header fields in front of the code take all their values as the code runs (flight status 0-7, downlink
+        // request 0-31, utility message 0-63; vertical status, cross-link, sensitivity level, reply information): the
+        // code must be read from its own 13 bits whatever precedes it
+        let (fs, dr, um) = ((code % 8) as u8, ((code as u32 * 7 + 3) % 32) as u8, ((code as u32 * 13 + 5) % 64) as u8);
         let frames: [(&str, Vec<u8>); 4] = [
-            ("DF4", frames::df4(0, 0, 0, code, addr)),
-            ("DF0", frames::df0(0, 0, 0, 0, code, addr)),
-            ("DF16", frames::df16(0, 0, 0, code, &mb, addr)),
-            ("DF20", frames::df20(0, 0, 0, code, &mb, addr)),
+            ("DF4", frames::df4(fs, dr, um, code, addr)),
+            ("DF0", frames::df0((code & 1) as u8, ((code >> 1) & 1) as u8, (code % 8) as u8, ((code as u32 * 5) % 16) as u8, code, addr)),
+            ("DF16", frames::df16((code & 1) as u8, (code % 8) as u8, ((code as u32 * 5) % 16) as u8, code, &mb, addr)),
+            ("DF20", frames::df20(fs, (dr + 16) % 32, um, code, &mb, addr)),
         ];
         let m_bit = code & 0x40 != 0;
         let mut v13 = None;
@@ -257,8 +261,9 @@ pub fn run(a: &Args, r: &mut Report) {
         {
             let p = gillham::from_field13(code);
             let exp = format!("{}{}{}{}", p.a, p.b, p.c, p.d);
-            let f5 = frames::df5(0, 0, 0, code, addr);
-            let f21 = frames::df21(0, 0, 0, code, &mb, addr);
+            let (fs, dr, um) = ((code % 8) as u8, ((code as u32 * 7 + 3) % 32) as u8, ((code as u32 * 13 + 5) % 64) as u8);
+            let f5 = frames::df5(fs, dr, um, code, addr);
+            let f21 = frames::df21(fs, (dr + 16) % 32, um, code, &mb, addr);
             let f61 = frames::df17(5, addr, &frames::me_status(1, 0, code, 0));
             for (name, f) in [("DF5", f5), ("DF21", f21), ("BDS61", f61)] {
                 r.evaluations += 1;
